@@ -1,4 +1,5 @@
 import Zc.Proofs.LinkConverge
+import Zc.Proofs.LinkBridge
 import Zc.GenFacts.Link
 /-! # C07 — end-to-end discovery converges to the set of registered services
 
@@ -150,6 +151,86 @@ theorem C07_convergence_gen (tr : Trace) (endT : Int)
   unfold convergedFor
   rw [this]
   simp
+
+/-! ### discharging contracts from the host models
+
+`Zc.Bridge` projects the timed runs of a host model to link events.  A contract that is proved for the projection of *every*
+run of a model is no longer a hypothesis about the hosts: it is replaced by "this host's part of the trace is the projection of
+a run of the model" (`GeneratedK6`) — the residual assumption is that the model describes the code, which is what the model's
+own property (here C08) checks by correspondence. -/
+
+/-- **K6 from C08's host machine** (`Zc.Goodbye.Host`: registry, both multicast queues, broadcast tasks, close sequence, after the
+D5/D6 repairs).  For every timed run from the initial state under the API discipline (`Disc`, `Spaced`), on the projected link
+trace a PTR with TTL > 0 is only sent ≥ 350 ms after the `reg` of its service and with no `unreg` since. -/
+theorem C07_K6_from_C08 (lower : String → String) (N : Bridge.Naming) (hty : Function.Injective N.tyId)
+    (hsv : Function.Injective N.svcId) (steps : List Bridge.Step) (T0 : Int)
+    (hrun : Bridge.IsRun lower Goodbye.Host.init T0 steps) (hd : ∀ st ∈ steps, Bridge.Disc lower st)
+    (hsp : Bridge.Spaced lower N [] steps) : K6 Cfg.paper (Bridge.events lower N steps) = true :=
+  Bridge.K6_of_run lower N hty hsv steps T0 hrun hd hsp
+
+/-- **K2, liveness half, from C08's host machine — under the event-loop axiom** (partial).  `Zc.Goodbye.Host.run` accepts every
+list of enabled blocks, so "three goodbyes are sent" does not follow from the machine alone: a run in which a pending task step
+never happens is a run.  With the liveness half of the loop axiom made explicit (`Bridge.Fair`: a broadcast task / close sequence
+pending after a step and due within the window is executed by a later step, at its due time) and the instance not yet closed
+(`Bridge.Open`), every `unreg` at `t` on the projected trace is followed by multicast goodbyes for that service at `t`, `t+125`,
+`t+250`: `C08_goodbyes` / `C08_goodbyes_all` executed step by step.  Missing for all of K2: the safety half `K2s` (a TTL-0 PTR
+is *only* sent within 250 ms of an `unreg`), which needs an invariant the C08 proofs do not have (every queued / live record has
+a non-zero TTL, i.e. services are registered with `other_ttl > 0`). -/
+theorem C07_K2l_from_C08_partial (lower : String → String) (N : Bridge.Naming) (steps : List Bridge.Step) (T0 endT : Int)
+    (hrun : Bridge.IsRun lower Goodbye.Host.init T0 steps) (hd : ∀ st ∈ steps, Bridge.Disc lower st)
+    (hfair : Bridge.Fair steps endT) (hopen : Bridge.Open steps) :
+    K2l Cfg.paper (Bridge.events lower N steps) endT = true :=
+  Bridge.K2l_of_run lower N steps T0 endT hrun hd hfair hopen
+
+/-- the contracts that are still hypotheses once K6 is discharged from the C08 model -/
+structure C07_ContractsFromModels (lower : String → String) (tr : Trace) (endT : Int) : Prop where
+  wf : WF Cfg.paper tr endT = true
+  k1 : K1 Cfg.paper tr endT = true
+  k2 : K2 Cfg.paper tr endT = true
+  k3 : K3 Cfg.paper tr endT = true
+  k4 : K4 Cfg.paper tr endT = true
+  k5 : K5 Cfg.paper tr endT = true
+  k7 : K7 Cfg.paper tr endT = true
+  k3b : K3b Cfg.paper tr endT = true
+  /-- instead of K6: every host's sends and `reg`/`unreg` events are those of a disciplined run of the C08 host machine -/
+  hosts : Bridge.GeneratedK6 lower tr
+
+/-- **C07 with K6 discharged** (partial: WF, K1–K5, K3b remain monitored hypotheses; K6 is a theorem about the C08 host
+model).  Not yet discharged, and why: K2 (goodbyes) and K1 (announcements) are *liveness* clauses — "a datagram is sent at
+t + 125" — and the C08/C09 machines accept every list of enabled blocks, so a run in which a pending task step never happens is a
+run: they follow only under the event-loop axiom that a timer fires at its due time (DESIGN §4.7 `WFSched`), which those models
+do not state; C08_goodbyes / C09_announce_schedule give the schedule of the task, not its execution. -/
+theorem C07_convergence_from_models_partial (lower : String → String) :
+    C07_convergence (C07_ContractsFromModels lower) := by
+  intro tr endT hc
+  exact C07_convergence_partial tr endT
+    ⟨hc.wf, hc.k1, hc.k2, hc.k3, hc.k4, hc.k5, Bridge.K6_of_generated lower tr hc.hosts, hc.k7, hc.k3b⟩
+
+/-- non-vacuity of the bridge: C08's example history (register, three announcements, a pointer answer queued in the protected
+queue, unregister 30 ms later, three goodbyes, the queue timer) is a timed run; its projection has a `reg` at 0, an `unreg`
+at 1130, three sends with the pointer at TTL 4500 and three at TTL 0, and K6 evaluates to true on it -/
+def C07_bridgeExample : Option (List Bridge.Step) :=
+  let s : Register.Svc :=
+    { type := "_http._tcp.local.", name := "svc._http._tcp.local.", server := "host.local.", port := 80, weight := 0, priority := 0,
+      text := [], v4 := [[10, 0, 0, 1]], v6 := [], hostTtl := 120, otherTtl := 4500 }
+  Bridge.mkRun id Goodbye.Host.init 0
+    [(350, .register s 1 350), (350, .task 1 none true 350), (575, .task 1 none true 575), (800, .task 1 none true 800),
+     (1100, .enqueue true 1100 60 [(s.ptr none, [s.srv none, s.txt none] ++ s.addrNsec none)]),
+     (1130, .unregister s 1 1130), (1130, .task 1 (some 0) true 1130), (1255, .task 1 (some 0) true 1255),
+     (1380, .task 1 (some 0) true 1380), (2160, .ready true 2160)]
+
+def C07_bridgeTrace : Option Trace :=
+  C07_bridgeExample.map fun steps => Bridge.events id ⟨0, String.length, String.length⟩ steps
+
+example : C07_bridgeTrace.map regs = some [(0, ⟨0, 17, 21⟩)] := by decide
+example : C07_bridgeTrace.map unregs = some [(1130, ⟨0, 17, 21⟩)] := by decide
+example : C07_bridgeTrace.map (fun tr => (sends tr).map (fun sd =>
+      (sd.t, sd.items.map (fun it => match it with | .ptr _ ttl full => (ttl, full) | _ => (0, false))))) =
+    some [(350, [(4500, true)]), (575, [(4500, true)]), (800, [(4500, true)]), (1130, [(0, true)]), (1255, [(0, true)]),
+          (1380, [(0, true)])] := by decide
+example : C07_bridgeTrace.map (K6 Cfg.paper) = some true := by decide
+/-- … and the three goodbyes of K2 are there (the example history executes every task step at its due time) -/
+example : C07_bridgeTrace.map (fun tr => K2l Cfg.paper tr 3000) = some true := by decide
 
 /-! ### non-vacuity: a concrete run satisfies every contract, and the conclusion is not trivial on it
 
